@@ -50,7 +50,41 @@ func (x *Exec) inlinable(fn *ssa.Function) bool {
 	if fn.Synthetic != "" {
 		return true
 	}
-	return false
+	return x.autoInline(fn)
+}
+
+// autoInline: small loop-free leaf functions of the module without a contract are inlined.
+func (x *Exec) autoInline(fn *ssa.Function) bool {
+	p := fnPkg(fn)
+	if p == nil || !strings.HasPrefix(p.Path(), modPath) {
+		return false
+	}
+	if fc, _ := x.contractOf(fn); fc != nil {
+		return false
+	}
+	if len(fn.Blocks) > 4 {
+		return false
+	}
+	n := 0
+	for _, b := range fn.Blocks {
+		for _, s := range b.Succs {
+			if s.Dominates(b) {
+				return false
+			}
+		}
+		for _, in := range b.Instrs {
+			n++
+			switch c := in.(type) {
+			case *ssa.Call:
+				if _, ok := c.Common().Value.(*ssa.Builtin); !ok {
+					return false
+				}
+			case *ssa.Go, *ssa.Defer, *ssa.Select:
+				return false
+			}
+		}
+	}
+	return n <= 24
 }
 
 // paramNames returns receiver+parameter names of a callee.
@@ -217,6 +251,7 @@ func (x *Exec) applyContract(st *State, fc *FuncContract, key string, callee *ss
 				a = Val{S: x.coerce(a, pts[i]), T: pts[i], Fn: a.Fn, Clo: a.Clo}
 			}
 			env.vars[n] = a
+			env.vars[fmt.Sprintf("arg%d", i)] = a
 		}
 	}
 	// preconditions
